@@ -184,7 +184,7 @@ structure TotAll (f : Nat) : Prop where
 end
 
 section
-variable (C : L3Contracts) {p0 a1 : Bytes} {aN : List Nat} {Lm tt rt : Nat}
+variable (C : C15Contracts) {p0 a1 : Bytes} {aN : List Nat} {Lm tt rt : Nat}
 
 theorem totAll_zero : TotAll p0 a1 aN Lm tt rt 0 := by
   constructor
